@@ -25,6 +25,7 @@ import (
 	"google.golang.org/protobuf/encoding/prototext"
 	"google.golang.org/protobuf/proto"
 	"google.golang.org/protobuf/types/descriptorpb"
+	"google.golang.org/protobuf/types/dynamicpb"
 	"google.golang.org/protobuf/types/known/durationpb"
 	"google.golang.org/protobuf/types/known/structpb"
 	"google.golang.org/protobuf/types/known/timestamppb"
@@ -120,6 +121,7 @@ func ptr[T any](v T) *T { return &v }
 
 func subjects(thorough bool) []subject {
 	var out []subject
+	twins := map[string]int{}
 	// fast-marshal corpus types of every runtime
 	for _, t := range gcore.Types() {
 		t := t
@@ -151,6 +153,15 @@ func subjects(thorough bool) []subject {
 			}
 			out = append(out, subject{fmt.Sprintf("fastmarshal/%s/%s", t, c.ID), cls,
 				func() any { x := t.New(); gcore.Copy(gcore.Reflect(x), c.Msg); return x }, t.New})
+			// twin: a dynamicpb message over the GENERATED type's own descriptor with the same contents. For the Google V2
+			// runtime message equality is defined on descriptors, not on Go types: Equal(generated, twin) is true.
+			if cls == clsV2 && twins[t.String()] < 2 {
+				twins[t.String()]++
+				desc := t.New().(proto.Message).ProtoReflect().Descriptor()
+				out = append(out, subject{fmt.Sprintf("dynamic-twin/%s/%s", t, c.ID), cls,
+					func() any { x := dynamicpb.NewMessage(desc); gcore.Copy(x, c.Msg); return x },
+					func() any { return dynamicpb.NewMessage(desc) }})
+			}
 		}
 	}
 	add := func(name string, cls *class, mk func() any) {
